@@ -28,7 +28,7 @@ ASSUMPTIONS = [
     "liveness is restated as bounded progress: all receiver tasks done within the director's idle-spin bound after the last operation",
     "timeouts are driven logically (asyncio.timeout().reschedule(now)), never by sleeping",
 ]
-FLOORS = {"quick": {"schedules": 8000, "distinct_histories": 1500}, "thorough": {"schedules": 600000, "distinct_histories": 50000}}
+FLOORS = {"quick": {"schedules": 8000, "distinct_histories": 1500}, "thorough": {"schedules": 400000, "distinct_histories": 40000}}
 CONTRACTS = []
 SHARD_TIMEOUT = {"quick": 600, "thorough": 3000}
 
@@ -65,7 +65,7 @@ def plan(tier, seed):
             shards.append({"kind": "random", "configs": rest[i::4], "n_per": 6, "seed": seed * 31 + i})
     else:
         for i in range(0, len(cfgs), 8):
-            shards.append({"kind": "dfs", "configs": cfgs[i:i + 8], "cap": 12000})
+            shards.append({"kind": "dfs", "configs": cfgs[i:i + 8], "cap": 4000})
         for i in range(8):
             shards.append({"kind": "random", "configs": cfgs[i::8], "n_per": 150, "seed": seed * 31 + i})
     return shards
